@@ -661,6 +661,13 @@ func Run(tier string, seed int64, outDir string) *common.Meta {
 	common.Must(err)
 	nS1 := len(base)
 	base = append(base, s2...)
+	// package-level initialisers carrying the examples' own code between the functions (fw.LoadLifted)
+	lifted, lerr := fw.LoadLifted(baseFset, outDir)
+	if lerr != nil || len(lifted) < 20 {
+		meta.TieBroken = append(meta.TieBroken, fmt.Sprintf("lifted-initialiser variants of the examples could not be derived/loaded (%d packages): %v", len(lifted), lerr))
+	}
+	base = append(base, lifted...)
+	meta.Distribution["lifted_initialiser_packages"] = len(lifted)
 	relDir := func(p *fw.Pkg) string {
 		if p.Stream == "S2" {
 			return filepath.Join("s2x", p.Name)
